@@ -87,13 +87,14 @@ def jsonable(x: Any) -> Any:
 
 
 class Violation:
-    __slots__ = ("sig", "case", "detail", "size")
+    __slots__ = ("sig", "case", "detail", "size", "shard")
 
     def __init__(self, sig: str, case: dict, detail: str, size: int = 0):
         self.sig = sig
         self.case = jsonable(case)
         self.detail = detail
         self.size = size
+        self.shard = None
 
     def as_dict(self):
         return {"sig": self.sig, "case": self.case, "detail": self.detail, "size": self.size}
